@@ -40,7 +40,9 @@ static void expect_tlv(const wd_frame *f, uint8_t type, const uint8_t *val, size
 static int IFX;        /* interface under test (1: the responder's second interface; interface 0 has other attributes and saw a frame first) */
 static void one(void) {
     vf_iface *fi = &W.iface[IFX];
-    vf_world_reset();
+    /* every second tuple is answered by the SAME responder image that has just answered the previous tuple: the platform's
+     * attributes changed in between (a host is renamed, an address is assigned), the Hello must encode what is supplied now */
+    if (!(evals & 1)) vf_world_reset();
     pev d = ev_discover(0, ST_M1, ST_M1, 0x0102, 1);
     if (IFX) { vf_trace_clear(); drv_linux(&d, 0); }
     vf_trace_clear();
